@@ -250,10 +250,19 @@ def concrete_check(op, init, k, v, w, k2, probe):
     old = g["same"]
     g["same"] = csame
     try:
-        m = MutableMultiMapping(list(init))
+        raw = list(init)
+        siblings = [MultiMapping(raw), QueryParams(raw)]
+        m = MutableMultiMapping(raw)
         check_views(None, m, list(init), probe)
         pairs, kind = apply(op, m, list(init), k, v, w, k2)
         check_views(None, m, pairs, probe)
+        if raw != list(init):
+            raise Fail("callers-pair-list-modified", f"{list(init)} -> {raw}")
+        for sib in siblings:
+            try:
+                check_views(None, sib, list(init), probe)
+            except Fail as f:
+                raise Fail("sibling-mapping-changed", f"{type(sib).__name__} built from the same pairs: {f.klass}") from None
     except Fail as f:
         return f"{f.klass}: {f.detail}"
     except Exception as ex:  # noqa: BLE001
@@ -275,12 +284,21 @@ def run_job(job) -> report.JobResult:
 
     def fn():
         init = [(SInt(a), SInt(b)) for a, b in zip(K, V)]
-        m = MutableMultiMapping(list(init))
+        raw = list(init)  # the caller's own pair list: mappings built from it must not share state through it
+        siblings = [MultiMapping(raw), QueryParams(raw)] if job.get("siblings", True) else []
+        m = MutableMultiMapping(raw)
         check_views(cur(), m, list(init), SInt(pr))  # constructor establishes the invariant / views
         pairs, kind = apply(op, m, list(init), SInt(kk), SInt(vv), SInt(ww), SInt(k2))
         if twin:
             raise Fail("twin-assert-false")
         check_views(cur(), m, pairs, SInt(pr))
+        if len(raw) != len(init) or any(a is not b for a, b in zip(raw, init)):
+            raise Fail("callers-pair-list-modified", f"{len(init)} pairs handed in, {len(raw)} afterwards")
+        for sib in siblings:
+            try:
+                check_views(cur(), sib, list(init), SInt(pr))
+            except Fail as f:
+                raise Fail("sibling-mapping-changed", f"{type(sib).__name__} built from the same pairs: {f.klass}") from None
         return kind
 
     def on_path(e, r):
